@@ -1,9 +1,12 @@
 import Driver.C15
 import Driver.Stages
+import Driver.Select
 
 def main (args : List String) : IO UInt32 := do
   match args with
   | ["C15"] => Driver.runJudge Driver.C15.judge; return 0
+  | ["C03"] => Driver.runJudge (Driver.Select.judge "C03"); return 0
+  | ["C04"] => Driver.runJudge (Driver.Select.judge "C04"); return 0
   | ["C06"] => Driver.runJudge (Driver.Stages.judge "C06"); return 0
   | ["C07"] => Driver.runJudge (Driver.Stages.judge "C07"); return 0
   | _ => IO.eprintln "usage: driver <property>  (cases on stdin, verdicts on stdout)"; return 2
